@@ -50,7 +50,7 @@ def run(prop, tier):
     for f in tr.marked["FAIL"]:
         o = observed[f["line"] - 1]
         clauses = sorted(f["clauses"])
-        sig = "%s %s [src=%s D=%s L=%s]" % (prop, "+".join(clauses), o["src"], o["cfg"]["D"], o["cfg"]["L"])
+        sig = "%s %s [src=%s D=%s L=%s%s]" % (prop, "+".join(clauses), o["src"], o["cfg"]["D"], o["cfg"]["L"], " limiter up for %.1f days before" % (o["uptimeMs"] / 86400000.0) if o.get("uptimeMs") else "")
         rep.violation(sig, {"failing_clauses": clauses, "observed_history": o, "seed": seed})
     # "for each client key" at the listener: connections through one balancer peer are limited by their announced source address, each
     # address has its own budget (Admission.tla histories against the real Listener, judged by Trace_Listener)
